@@ -61,7 +61,7 @@ def shapes(tier):
     J.append(job([S("keyed", 1), CANCEL(1), STEP, UNTIL("abs")]))
     if tier == "thorough":
         J.append(dict(job([S("periodic", 1), S("periodic", 2, dl="rel", origin=1), UNTIL("abs"), UNTIL("abs")], max_steps=2), budget_s=1500))
-        kinds4 = ("once", "periodic", "keyed", "kperiodic")
+        kinds4 = ("once", "periodic", "kperiodic")   # (all four kinds for both: > 90 min on 16 cores)
         for k1 in kinds4:
             for k2 in kinds4:
                 for k3 in ("once", "periodic"):
